@@ -36,6 +36,10 @@ pub enum Action {
     Absurd { kind: u8, to: u16 },
     /// Adversary: votes for many distinct future views.
     Flood { byz: u8, timeouts: bool, from_view: u32, count: u16, to: u16 },
+    /// A variant of a pool message is delivered: 0 = re-signed by a Byzantine validator (wrong author / leader),
+    /// 1 = re-signed by a key outside the committee, 2 = signature of another message, 3 = same content for another genesis
+    /// (re-signed by a Byzantine validator), 4 = another epoch, 5 = view shifted by +-1..3 (votes only, Byzantine signer).
+    Variant { msg: u16, to: u16, kind: u8, arg: u8 },
 }
 
 #[derive(Debug, Clone, Serialize, Deserialize, Hash)]
@@ -68,6 +72,7 @@ pub struct Profile {
     pub crashes: bool,
     pub floods: bool,
     pub absurd: bool,
+    pub variants: bool,
     pub len: usize,
 }
 
@@ -133,6 +138,7 @@ pub fn gen_case(ch: &mut Choices, p: &Profile) -> SimCase {
             31 | 32 if p.byzantine => Action::CompleteTimeouts { lie: ch.below(4) as u8, reveal: mask(ch) },
             33..=35 if p.byzantine => Action::Equivocate { to_a: ch.raw(), to_b: ch.raw() },
             36 if p.byzantine && p.absurd => Action::Absurd { kind: ch.below(6) as u8, to: mask(ch) },
+            38 | 39 if p.variants => Action::Variant { msg: ch.raw(), to: ch.raw(), kind: ch.below(6) as u8, arg: ch.below(6) as u8 },
             37 if p.byzantine && p.floods => Action::Flood { byz: ch.below(4) as u8, timeouts: ch.bool(), from_view: ch.pick(&[0u32, 5, 1000]), count: ch.pick(&[3u16, 20, 60]), to: mask(ch) },
             _ => Action::Flush { mask: u16::MAX, kinds: KIND_ALL, limit: 1000, rounds: 2 },
         };
@@ -188,6 +194,7 @@ pub struct RunInfo {
     pub accepted_deep: usize,
     pub flood_msgs: usize,
     pub absurd_msgs: usize,
+    pub variants: usize,
     pub kinds_matrix: std::collections::BTreeSet<String>,
 }
 
@@ -365,6 +372,20 @@ pub async fn apply(w: &mut World, a: &Action, info: &mut RunInfo) -> Result<(), 
             }
             w.progress().await;
             w.reap().await;
+        }
+        Action::Variant { msg, to, kind, arg } => {
+            if !w.pool.is_empty() {
+                let m = common::pick_index(*msg, w.pool.len());
+                let i = pick_node(w, *to);
+                if let Some(v) = w.variant(m, *kind, *arg) {
+                    info.variants += 1;
+                    if w.ready(i) {
+                        w.deliver(i, v, false).await;
+                    }
+                    w.progress().await;
+                    w.reap().await;
+                }
+            }
         }
         Action::Flood { byz, timeouts, from_view, count, to } => {
             let ms = w.flood(*byz as usize, *timeouts, *from_view as u64, *count as u64);
